@@ -592,6 +592,12 @@ func (c *evalCtx) callExpr(n *ast.CallExpr) Value {
 		}
 		fam := c.heap.family(familyName(a.Elem, fname), SInt)
 		return Sl{Arr: Select(fam, a.R), O: a.O, L: a.L, C: a.L, R: Int(-2), Elem: ft}
+	case "haskey":
+		mv, ok := c.rv(c.eval(arg(0))).(MapV)
+		if !ok {
+			c.errf("haskey: not a map")
+		}
+		return Sc{c.x.mapHas(c.heap, mv, c.rv(c.eval(arg(1))))}
 	case "sameslice":
 		a, b := c.rv(c.eval(arg(0))).(Sl), c.rv(c.eval(arg(1))).(Sl)
 		return Sc{And(Eq(a.R, b.R), Eq(a.O, b.O), Eq(a.L, b.L), Eq(a.C, b.C))}
@@ -687,6 +693,8 @@ func (c *evalCtx) callExpr(n *ast.CallExpr) Value {
 	case "errtag":
 		// errtag(e): dynamic type tag of an interface value
 		return Sc{c.rv(c.eval(arg(0))).(If).Tag}
+	case "errval":
+		return Sc{c.rv(c.eval(arg(0))).(If).Pl}
 	case "typeid":
 		s, _ := strconv.Unquote(arg(0).(*ast.BasicLit).Value)
 		return Sc{Int(c.x.p.typeIDByName(s))}
